@@ -39,7 +39,7 @@ WHYS = {
     'cpa': ['traces_text_late', 'data_text_late', 'traces_list', 'data_list', 'traces_3d', 'traces_1d', 'traces_str', 'data_str', 'rows_more', 'rows_less', 'length', 'words'],
     'cpa_alt': ['traces_text_late', 'data_text_late', 'traces_list', 'data_list', 'traces_3d', 'traces_1d', 'traces_str', 'data_str', 'rows_more', 'rows_less', 'length', 'words'],
     'dpa': ['traces_text_late', 'data_text_late', 'traces_list', 'data_list', 'traces_3d', 'traces_1d', 'traces_str', 'data_str', 'rows_more', 'rows_less', 'length', 'words', 'dpa_range', 'dpa_dtype', 'data_float'],
-    'anova': ['traces_list', 'data_list', 'traces_3d', 'traces_1d', 'traces_str', 'data_str', 'traces_float16', 'traces_complex', 'rows_more', 'rows_less', 'length', 'words', 'data_float', 'data_int64', 'auto_gt255', 'auto_neg'],
+    'anova': ['traces_nonfinite', 'traces_list', 'data_list', 'traces_3d', 'traces_1d', 'traces_str', 'data_str', 'traces_float16', 'traces_complex', 'rows_more', 'rows_less', 'length', 'words', 'data_float', 'data_int64', 'auto_gt255', 'auto_neg'],
     'tbuild': ['traces_list', 'data_list', 'traces_3d', 'traces_1d', 'traces_str', 'data_str', 'traces_float16', 'traces_complex', 'rows_more', 'rows_less', 'length', 'two_words', 'data_float', 'data_int64', 'auto_gt255', 'auto_neg'],
     'tmatch': ['traces_list', 'data_list', 'traces_3d', 'traces_1d', 'traces_str', 'data_str', 'rows_more', 'rows_less', 'length', 'before_build', 'hyp_undeclared'],
     'attack': ['sf_raises', 'length', 'rows_meta'],
@@ -107,10 +107,13 @@ class _Obj:
                 rows_log.append(d.shape[0])
                 return np.stack([d, d ^ 1], axis=1)
             ckw = {'convergence_step': int(case['convergence_step'])} if case.get('convergence_step') else {}
+            # any callable is accepted as discriminant: also one without a __name__ (a functools.partial of a documented discriminant)
+            import functools
+            disc = functools.partial(scared.maxabs) if case.get('disc_partial') else scared.maxabs
             if kind in ('attack_cpa', 'run_cpa'):
-                self.o = scared.CPAAttack(selection_function=sf, model=scared.Value(), discriminant=scared.maxabs, precision=prec, **ckw)
+                self.o = scared.CPAAttack(selection_function=sf, model=scared.Value(), discriminant=disc, precision=prec, **ckw)
             else:
-                self.o = scared.SNRAttack(selection_function=sf, model=scared.Value(), discriminant=scared.maxabs, precision=prec,
+                self.o = scared.SNRAttack(selection_function=sf, model=scared.Value(), discriminant=disc, precision=prec,
                                           partitions=list(case['partitions']), **ckw)
         else:
             raise ValueError(kind)
@@ -172,6 +175,10 @@ def _bad_args(case, op, last_good):
             dd = dd.astype('U12')
             dd[(4500,) + (0,) * (dd.ndim - 1)] = 'n/a'
         return tt, dd
+    if why == 'traces_nonfinite':
+        tt = t.astype('float32' if t.dtype.kind != 'f' else t.dtype)
+        tt[0, 0] = np.nan      # (NaN, not inf: the final statistic at that sample is NaN whichever accumulation kernel handled the batch)
+        return tt, d
     if why == 'traces_float16':
         return t.astype('float16'), d               # the compiled kernels have no half-precision version: refused inside the kernel call
     if why == 'traces_complex':
@@ -390,6 +397,8 @@ def histories(draw, kind):
     tdt = draw(st.sampled_from(['uint8', 'int16', 'float32', 'float64']))
     if kind.startswith('run'):
         case['convergence_step'] = draw(st.sampled_from([0, 2, 3, 5]))
+    if kind.startswith(('attack', 'run')):
+        case['disc_partial'] = draw(st.booleans())
 
     def g_int(lo, hi, shape):
         from hypothesis.extra import numpy as hnp
@@ -442,6 +451,8 @@ def unit_enumerated(ctx, kinds, reps, computes=(False, True)):
                         tdt = ['uint8', 'int16', 'float32', 'float64'][int(g.integers(4))]
                         if kind.startswith('run'):
                             case['convergence_step'] = [0, 2, 3, 5][int(g.integers(4))]
+                        if kind.startswith(('attack', 'run')):
+                            case['disc_partial'] = bool(g.integers(2))
 
                         def g_int(lo, hi, shape):
                             return g.integers(lo, hi + 1, size=shape)
